@@ -131,6 +131,11 @@ def run(ctx):
         ctx.floor("conversion rows (cbor_smol::Error variants + 1)", rows, 20, cfg=cfg)
         exits = funnel(ctx, F, cfg)
         ctx.floor("error exits of Request::deserialize", exits, 3, cfg=cfg)
+        # which command bytes are rejected with InvalidCommand at all: the byte-level decision table of the command switch
+        # (every unassigned and every unsupported byte, and no other)
+        from . import c11
+        cmds = json.load(open(os.path.join(VERIF, "spec", "commands.json")))
+        c11.check_dispatch(ctx, F, cfg, cmds, P="C05")
         # required sets
         n_req = 0
         for path, s in spec["requests"].items():
